@@ -783,6 +783,11 @@ def line_comment_trailing_blanks(prog, rep, R):
         trimmed_by_truncate = any(a and len_of_trimmed(a[-1]) for a in trunc)
         pushes = [a for nm, a in calls if nm.endswith("String::push_str")]
         lt = pushes[-1][-1] if pushes else None
+        # a text assembled in one go (`[a, b, c].concat()`): its last piece is what it ends with
+        for nm, a in calls:
+            if nm.split("::")[-1] in ("concat", "join") and nm.startswith("alloc::slice") and a and a[0].startswith("array{") and a[0].endswith("}"):
+                els = split_call("f(" + a[0][len("array{"):-1] + ")")[1]
+                lt = els[-1] if els else None
         last_trimmed = lt is not None and trimmed_arg(lt) is not None and reaches(trimmed_arg(lt)) and not trunc
         if not (no_trailing or trimmed_by_truncate or last_trimmed):
             bad.append(("replaces the text", sorted(str(c[1])[:60] + "=" + str(c[2]) for c in cons if c[0] == "cond")))
